@@ -61,7 +61,10 @@ def _verif_set_tid(int tid):
     _verif_tid = tid
 
 cdef inline bint _compare_gids(id_gid_pair_t x, id_gid_pair_t y) noexcept nogil:
-    return y.second > x.second
+    # Ghost particles carry the gid of their original: break the tie by the
+    # index so that the sorted order does not depend on the input order.
+    return (y.second > x.second) or \
+        (y.second == x.second and y.first > x.first)
 
 def py_flatten(IntPoint cid, IntArray ncells_per_dim, int dim):
     """Python wrapper"""
